@@ -161,6 +161,16 @@ Definition assembled_ok (n : nat) (d : data) (script : list sigval) : Prop :=
 Definition is_designate (w : write) : bool :=
   match w with WDesignate _ _ => true | _ => false end.
 
+Definition is_sigwrite (w : write) : bool :=
+  match w with WAddSig _ _ | WSetSig _ _ => true | _ => false end.
+
+(** A signature record may be sent only with a signature of a member in [P]. *)
+Definition sent_ok (P : nat -> Prop) (w : write) : Prop :=
+  match w with
+  | WAddSig _ r | WSetSig _ r => P (sv_by (sr_sig r))
+  | _ => True
+  end.
+
 Record tick_ok (P : nat -> Prop) (n : nat) (c : chain) (c' : chain) (l' : leader) (ev : list event) : Prop := {
   to_linv : linv P n l';
   to_des : c_designated c' = c_designated c;
@@ -168,7 +178,8 @@ Record tick_ok (P : nat -> Prop) (n : nat) (c : chain) (c' : chain) (l' : leader
   to_pool : forall e, In e (c_pool c') -> In e (c_pool c) \/ In (ESent (fst e) (snd e)) ev;
   to_asm : forall d sc, In (EAssembled d sc) ev -> assembled_ok n d sc /\ Forall (fun s => P (sv_by s)) (tail sc);
   to_sent : forall id d sc, In (ESent id (WDesignate d sc)) ev ->
-            valid_witness n d sc = true /\ length sc = maj_m n /\ script_ok P n (tail sc)
+            valid_witness n d sc = true /\ length sc = maj_m n /\ script_ok P n (tail sc);
+  to_kind : forall id w, In (ESent id w) ev -> sent_ok P w
 }.
 
 Lemma pool_add_spec c w c' id :
@@ -182,7 +193,7 @@ Lemma gas_ok P n maxinc nonce b c l c' l' ev :
   linv P n l' /\ c_designated c' = c_designated c /\
   (c_txdom c' = c_txdom c /\ c_sigdom c' = c_sigdom c /\ c_height c' = c_height c) /\
   (forall e, In e (c_pool c') -> In e (c_pool c) \/ In (ESent (fst e) (snd e)) ev) /\
-  (forall e, In e ev -> exists id w, e = ESent id w /\ is_designate w = false).
+  (forall e, In e ev -> exists id w, e = ESent id w /\ is_designate w = false /\ is_sigwrite w = false).
 Proof.
   unfold generate_and_share. set (w := if b then _ else _).
   destruct (write_ok c w); cbn [negb].
@@ -191,7 +202,7 @@ Proof.
     split; [split; [reflexivity|split; [apply m_ok_nil|left; reflexivity]]|]. split; [exact Hd|]. split; [auto|]. split.
     + intros e He. rewrite Hp in He. apply in_app_or in He as [He|[<-|[]]]; [left; exact He|].
       right. left. reflexivity.
-    + intros e [<-|[]]. exists id, w. split; [reflexivity|]. subst w. destruct b; reflexivity.
+    + intros e [<-|[]]. exists id, w. split; [reflexivity|]. subst w. destruct b; split; reflexivity.
   - intros [= <- <- <-]. split; [apply linv_reset|]. split; [reflexivity|]. split; [auto|].
     split; [intros e He; left; exact He|intros e []].
 Qed.
@@ -202,7 +213,9 @@ Proof.
   intros H. apply (gas_ok P n) in H as (H1 & H2 & H3 & H4 & H5).
   split; try assumption.
   - intros d sc Hin. apply H5 in Hin as (id & w & Hw & _). discriminate.
-  - intros id d sc Hin. apply H5 in Hin as (id' & w & Hw & Hd). injection Hw as <- <-. discriminate.
+  - intros id d sc Hin. apply H5 in Hin as (id' & w & Hw & Hd & _). injection Hw as <- <-. discriminate.
+  - intros id w Hin. apply H5 in Hin as (id' & w' & Hw & _ & Hk). injection Hw as <- <-.
+    destruct w; try exact I; discriminate.
 Qed.
 
 (** Events that may precede the outcome of the send within one tick. *)
@@ -216,11 +229,13 @@ Definition pre_ok (P : nat -> Prop) (n : nat) (e : event) : Prop :=
 Lemma tick_ok_prepend P n c c' l' ev ev0 :
   tick_ok P n c c' l' ev -> Forall (pre_ok P n) ev0 -> tick_ok P n c c' l' (ev0 ++ ev).
 Proof.
-  intros [H1 H2 H3 H4 H5 H6] H0. rewrite List.Forall_forall in H0. split; try assumption.
+  intros [H1 H2 H3 H4 H5 H6 H7] H0. rewrite List.Forall_forall in H0. split; try assumption.
   - intros e He. destruct (H4 e He) as [H|H]; [left; exact H|right; apply in_or_app; right; exact H].
   - intros d sc Hin. apply in_app_or in Hin as [Hin|Hin]; [|apply H5; exact Hin].
     exact (H0 _ Hin).
   - intros id d sc Hin. apply in_app_or in Hin as [Hin|Hin]; [|exact (H6 id d sc Hin)].
+    destruct (H0 _ Hin).
+  - intros id w Hin. apply in_app_or in Hin as [Hin|Hin]; [|exact (H7 id w Hin)].
     destruct (H0 _ Hin).
 Qed.
 
@@ -308,6 +323,7 @@ Proof.
     + intros d0 sc [H|[]]. discriminate.
     + intros id0 d0 sc [H|[]]. injection H as _ <- <-.
       destruct (Hv0 (Hv eq_refl)) as [Hw Hlw]. split; [exact Hw|]. split; [exact Hlw|]. exact (proj2 (proj2 Hl1)).
+    + intros id0 w0 [H|[]]. injection H as _ <-. exact I.
   - (* invalid signature *)
     intros [= <- <- <-]. rewrite <- (app_nil_r (ev1 ++ _)).
     apply tick_ok_prepend; [apply tick_ok_same; exact Hl1|].
@@ -340,6 +356,7 @@ Proof.
     + intros e He. rewrite Hp in He. apply in_app_or in He as [He|[<-|[]]]; [left; exact He|right; left; reflexivity].
     + intros d sc [H|[]]. discriminate.
     + intros id' d sc [H|[]]. discriminate.
+    + intros id' w [H|[]]. injection H as _ <-. exact I.
   - destruct (bool_decide (is_Some (l_set l))); [intros [= <- <- <-]; apply tick_ok_same; exact Hl|].
     apply gas_tick_ok.
   - destruct (d_vub d <? c_height c); [apply gas_tick_ok|].
@@ -365,34 +382,35 @@ Qed.
 (** * Signer and solo ticks *)
 
 Lemma tick_ok_send P n c c1 id w l :
-  linv P n l -> pool_add c w = (c1, id) -> is_designate w = false ->
+  linv P n l -> pool_add c w = (c1, id) -> is_designate w = false -> sent_ok P w ->
   tick_ok P n c c1 l [ESent id w].
 Proof.
-  intros Hl Ep Hw. apply pool_add_spec in Ep as (Hp & Hd & Ht & Hs & Hh).
+  intros Hl Ep Hw Hk. apply pool_add_spec in Ep as (Hp & Hd & Ht & Hs & Hh).
   split; try assumption; try (repeat split; assumption).
   - intros e He. rewrite Hp in He. apply in_app_or in He as [He|[<-|[]]]; [left; exact He|right; left; reflexivity].
   - intros d sc [H|[]]. discriminate.
   - intros id' d sc [H|[]]. injection H as _ ->. discriminate Hw.
+  - intros id' w' [H|[]]. injection H as _ <-. exact Hk.
 Qed.
 
-Lemma signer_tick_ok P n k c sg c' sg' ev l :
-  linv P n l -> signer_tick k c sg = (c', sg', ev) -> tick_ok P n c c' l ev.
+Lemma signer_tick_ok (P : nat -> Prop) n k c sg c' sg' ev l :
+  P k -> linv P n l -> signer_tick k c sg = (c', sg', ev) -> tick_ok P n c c' l ev.
 Proof.
-  intros Hl. unfold signer_tick.
+  intros Hk Hl. unfold signer_tick.
   destruct (lookup_tx c) as [| |d]; try (intros [= <- <- <-]; apply tick_ok_same; exact Hl).
   destruct (d_vub d <? c_height c); [intros [= <- <- <-]; apply tick_ok_same; exact Hl|].
   destruct (lookup_sig c k) as [| |r].
   - destruct (bool_decide (is_Some _)); [intros [= <- <- <-]; apply tick_ok_same; exact Hl|].
     destruct (pool_add c (WRegSig k)) as [c1 id] eqn:Ep. intros [= <- <- <-].
-    eapply tick_ok_send; eauto.
+    eapply tick_ok_send; eauto; exact I.
   - destruct (bool_decide (is_Some _)); [intros [= <- <- <-]; apply tick_ok_same; exact Hl|].
     destruct (write_ok c _); cbn [negb]; [|intros [= <- <- <-]; apply tick_ok_same; exact Hl].
     destruct (pool_add c _) as [c1 id] eqn:Ep. intros [= <- <- <-].
-    eapply tick_ok_send; eauto.
+    eapply tick_ok_send; eauto; exact Hk.
   - destruct (_ && _); [intros [= <- <- <-]; apply tick_ok_same; exact Hl|].
     destruct (write_ok c _); cbn [negb]; [|intros [= <- <- <-]; apply tick_ok_same; exact Hl].
     destruct (pool_add c _) as [c1 id] eqn:Ep. intros [= <- <- <-].
-    eapply tick_ok_send; eauto.
+    eapply tick_ok_send; eauto; exact Hk.
 Qed.
 
 Lemma solo_tick_ok P nonce c p c' p' ev l :
@@ -408,6 +426,7 @@ Proof.
   - intros id' d sc [H|[]]. injection H as _ <- <-. split; [|split; [reflexivity|left; reflexivity]].
     unfold valid_witness. cbn [forallb map strictly_increasing sv_over sv_by].
     rewrite bool_decide_eq_true_2 by reflexivity. reflexivity.
+  - intros id' w [H|[]]. injection H as _ <-. exact I.
 Qed.
 
 (** * Global invariant over histories *)
@@ -429,7 +448,7 @@ Qed.
 Lemma ginv_tick P n c l sg so c' l' sg' so' ev evs :
   tick_ok P n c c' l' ev -> ginv P n (mkP c l sg so) evs -> ginv P n (mkP c' l' sg' so') (evs ++ ev).
 Proof.
-  intros [T1 T2 T3 T4 T5 T6] (G1 & G2 & G3 & G4 & G5). unfold ginv. cbn [p_chain p_leader] in *.
+  intros [T1 T2 T3 T4 T5 T6 _] (G1 & G2 & G3 & G4 & G5). unfold ginv. cbn [p_chain p_leader] in *.
   split; [exact T1|]. split; [|split; [|split]].
   - intros e He. apply in_or_app. destruct (T4 e He) as [H|H]; [left; apply G2; exact H|right; exact H].
   - rewrite T2. intros Hd. destruct (G3 Hd) as (id & d & sc & Hin). exists id, d, sc. apply in_or_app. left. exact Hin.
@@ -486,19 +505,21 @@ Qed.
     leader may collect. *)
 Lemma pstep_ginv P n maxinc s lb s' ev evs :
   (1 <= n)%nat -> recs_ok P (p_chain s) ->
+  (forall k nonce order, lb = LTick k nonce order -> k <> 0%nat -> P k) ->
   pstep n maxinc s lb = (s', ev) -> ginv P n s evs -> ginv P n s' (evs ++ ev).
 Proof.
-  intros Hn Hc Hstep G. destruct s as [c l sg so]. destruct lb as [k nonce order|k|id| | |i recs]; cbn [pstep p_chain p_leader p_signers p_solo] in Hstep.
+  intros Hn Hc HP Hstep G. destruct s as [c l sg so]. destruct lb as [k nonce order|k|id| | |i recs]; cbn [pstep p_chain p_leader p_signers p_solo] in Hstep.
   - destruct (c_designated c || negb (k <? n)%nat); [injection Hstep as <- <-; rewrite app_nil_r; exact G|].
     destruct (n =? 1)%nat eqn:E1.
     + apply Nat.eqb_eq in E1. subst n.
       destruct (solo_tick nonce c so) as [[c1 p1] ev1] eqn:Et. injection Hstep as <- <-.
       eapply ginv_tick; [|exact G]. eapply solo_tick_ok; [exact (proj1 G)|exact Et].
-    + destruct (k =? 0)%nat.
+    + destruct (k =? 0)%nat eqn:E0.
       * destruct (leader_tick n maxinc nonce order c l) as [[c1 l1] ev1] eqn:Et. injection Hstep as <- <-.
         eapply ginv_tick; [|exact G]. eapply leader_tick_ok; [exact Hn|exact Hc|exact (proj1 G)|exact Et].
       * destruct (signer_tick k c _) as [[c1 sg1] ev1] eqn:Et. injection Hstep as <- <-.
-        eapply ginv_tick; [|exact G]. eapply signer_tick_ok; [exact (proj1 G)|exact Et].
+        eapply ginv_tick; [|exact G]. apply Nat.eqb_neq in E0.
+        eapply signer_tick_ok; [exact (HP k nonce order eq_refl E0)|exact (proj1 G)|exact Et].
   - destruct (k =? 0)%nat; injection Hstep as <- <-; rewrite app_nil_r;
       destruct G as (G1 & G2 & G3 & G4 & G5); (split; [|split; [|split; [|split]]]; try assumption).
     apply linv_leader0.
